@@ -174,6 +174,7 @@ static void vf_delete(void* p, size_t size, size_t align) noexcept {
       g_alloc.key[s].store(1, std::memory_order_relaxed);
       g_alloc.live.fetch_sub(1, std::memory_order_relaxed);
       g_alloc.live_bytes.fetch_sub(int64_t(asize), std::memory_order_relaxed);
+      CbScope cb;  // counters / reports created below are harness allocations
       if ((size != 0 && size != asize) || (align != 0 && align != aalign) ||
           (align == 0 && aalign > alignof(std::max_align_t))) {
         report("delete-arguments-do-not-match-allocation",
@@ -933,9 +934,8 @@ static void dispatch(const Cfg& cfg, uint64_t ep_seed) {
   }
 }
 
-static const std::vector<std::string> kStallPoints = {"cb:c04_ctor", "vec:before_cas", "vec:cas_lost",
-                                                      "vec:before_retire", "vec:retire_before_cas",
-                                                      "vec:gc_before_cas", "vec:cas_lost_retry"};
+static const std::vector<std::string> kStallPoints = {"cb:c04_ctor", "vec:before_cas", "vec:cas_won", "vec:cas_lost",
+                                                      "vec:retire_loaded", "vec:retire_expired", "vec:gc_expired"};
 
 static void run_episode(uint64_t seed, uint64_t episode, bool cooling) {
   vf::Rng r(vf::mix(seed, episode, cooling ? 0xc001 : 0x9401));
